@@ -61,6 +61,21 @@ PROPS = {
         "rule": INJECT_RULE,
         "assumptions": ["K5: rename cookies are non-zero and pairwise distinct within any window of 2^32 renames"],
     },
+    "C10": {
+        "lean": [],
+        "stages": [{"name": "inject", "cmd": "inject", "what": "C10", "sessions": True}],
+        "rule": INJECT_RULE,
+    },
+    "C12": {
+        "lean": [],
+        "stages": [{"name": "inject", "cmd": "inject", "what": "C12", "sessions": True}],
+        "rule": INJECT_RULE,
+    },
+    "C04": {
+        "lean": [],
+        "stages": [{"name": "inject", "cmd": "inject", "what": "C04", "sessions": True}],
+        "rule": INJECT_RULE,
+    },
     "C16": {
         "lean": ["FsnVerif.Props.C16"],
         "lean_support": ["FsnVerif.Proofs.BitsLemmas", "FsnVerif.Proofs.OpStringLemmas", "FsnVerif.Proofs.BridgeTables", "FsnVerif.Model.Bits"],
